@@ -51,7 +51,7 @@ class C11(Check):
     technique = "generated encrypted archives; byte-level leak search, key-less structural decode by the reference reader, IV/ciphertext uniqueness with the real RNG, wrong/missing password outcomes compared with the plaintext model"
     rule = ("case = 1..4 members with incompressible marker plaintext (24..3000 bytes) and names >= 6 characters x chain ending in 7zAES "
             "(every codec family incl. BCJ/Delta, AES alone, Copy+AES, default filters with a password) x header encryption off / constructor "
-            "flag / setter x password over Unicode incl. empty, astral, long x 1..2 sessions (create, append) x wrong passwords (different, "
+            "flag / setter (each also followed by set_encoded_header_mode(True)) x password over Unicode incl. empty, astral, long x 1..2 sessions (create, append) x wrong passwords (different, "
             "proper prefix, case-changed, empty) and no password. Oracle: no 16-byte plaintext window in the archive bytes; every folder's "
             "outermost coder is 7zAES and feeding the packed stream to the inner coders as if unencrypted does not give the plaintext; with "
             "header encryption the next header is an AES-coded EncodedHeader and no member name (UTF-16-LE or UTF-8) occurs in the file; two "
@@ -82,7 +82,7 @@ class C11(Check):
         return st.fixed_dictionaries({
             "filters": chain,
             "filters2": st.one_of(st.none(), chain),
-            "header": st.sampled_from(["encoded", "encoded", "raw", "encrypted-flag", "encrypted-setter"]),
+            "header": st.sampled_from(["encoded", "encoded", "raw", "encrypted-flag", "encrypted-setter", "encrypted-flag+enc", "encrypted-setter+enc"]),
             "password": st.one_of(st.sampled_from(PASSWORDS), st.text(min_size=0, max_size=10)),
             "names": st.lists(name, min_size=1, max_size=4, unique=True),
             "members": st.lists(member, min_size=4, max_size=4),
@@ -96,7 +96,7 @@ class C11(Check):
         # every password class x header mode on the two chains where the ciphertext is the only protection
         i = 0
         for pw in PASSWORDS:
-            for header in ("encoded", "encrypted-flag", "encrypted-setter"):
+            for header in ("encoded", "encrypted-flag", "encrypted-setter", "encrypted-flag+enc", "encrypted-setter+enc"):
                 for filt in ([{"id": G.F_COPY}, {"id": G.F_AES}], None):
                     i += 1
                     if not env.mine(i):
